@@ -1,4 +1,5 @@
 import WtfModel.Props.C02
+import WtfModel.Props.C02b
 #print axioms Wtf.C02.sites_clean
 #print axioms Wtf.C02.no_other_nondeterminism
 #print axioms Wtf.C02.sorts_stable
@@ -6,3 +7,5 @@ import WtfModel.Props.C02
 #print axioms Wtf.C02.sort_ints_sched_indep
 #print axioms Wtf.C02.collect_sched_indep
 #print axioms Wtf.C02.search_function
+#print axioms Wtf.C02.fallback_ties_fixed_rule
+#print axioms Wtf.C02.fuzzy_order_unique
